@@ -36,7 +36,7 @@ type Config struct {
 	Handler      string            `json:"handlerOverride,omitempty"`
 	// supervisor behaviour per role ("runtime", "ext:<basename>")
 	LaunchError      map[string][]int `json:"launchError,omitempty"`      // launch indices whose Exec fails
-	ExitEventDelayMs map[string]int   `json:"exitEventDelayMs,omitempty"` // delay between death and delivery of the exit event
+	ExitEventDelayMs map[string]int   `json:"exitEventDelayMs,omitempty"` // delay between death and delivery of the exit event, per role ("runtime", "ext:<name>") or per process ("proc:runtime-1")
 	// ExecReturnLagMs: the supervisor's Exec of this role returns that long after the process has started running (a
 	// supervisor reached over a socket, or the orchestrator's goroutine being preempted at that point): a process that
 	// exits at once is then reported dead before Exec has returned
